@@ -89,11 +89,17 @@ pub enum Policy {
     Random(StdRng),
     /// PCT-style: random priorities with `d` priority change points among `k` expected steps
     Pct { rng: StdRng, prio: HashMap<String, i64>, change_at: Vec<usize>, low: i64 },
+    /// random among the runnable threads other than `role`; `role` runs only when nothing else can
+    /// (with role = "h" the 16-slot process queue fills up and the feeder has to wait for the hasher)
+    Starve { role: String, rng: StdRng },
 }
 
 impl Policy {
     pub fn random(seed: u64) -> Policy {
         Policy::Random(StdRng::seed_from_u64(seed))
+    }
+    pub fn starve(role: &str, seed: u64) -> Policy {
+        Policy::Starve { role: role.to_string(), rng: StdRng::seed_from_u64(seed) }
     }
     pub fn pct(seed: u64, d: usize, k: usize) -> Policy {
         let mut rng = StdRng::seed_from_u64(seed);
@@ -252,6 +258,14 @@ impl Sched {
                     }
                 }
                 Policy::Random(rng) => enabled[rng.gen_range(0..enabled.len())],
+                Policy::Starve { role, rng } => {
+                    let others: Vec<usize> = enabled.iter().copied().filter(|&i| &st.th[i].role != role).collect();
+                    if others.is_empty() {
+                        enabled[0]
+                    } else {
+                        others[rng.gen_range(0..others.len())]
+                    }
+                }
                 Policy::Pct { rng, prio, change_at, low } => {
                     for &i in &enabled {
                         let r = st.th[i].role.clone();
